@@ -109,6 +109,16 @@ func (p *TMultiUDPTransport) Write(buff []byte) (int, error) {
 	return n, nil
 }
 
+// Discard drops everything written to the underlying transports since the
+// last Flush without sending it.
+func (p *TMultiUDPTransport) Discard() {
+	for _, trans := range p.transports {
+		if d, ok := trans.(interface{ Discard() }); ok {
+			d.Discard()
+		}
+	}
+}
+
 // Flush flushes the write buffer of the underlying transports
 func (p *TMultiUDPTransport) Flush() error {
 	for _, trans := range p.transports {
